@@ -37,6 +37,15 @@ type e2eCase struct {
 	// Fluent: the fields are added through the builder's typed methods (Bit, Uint16, String, ... with
 	// ServerAddress/UnitID/ByteOrder/Name setters and builder defaults) instead of AddAll
 	Fluent bool `json:"fluent,omitempty"`
+	// Grow > 0 (a builder that lives long and grows): the builder is filled with Fields and asked for its requests (both framings), then
+	// Grow more valid register fields are added (synthesised by grown()) and it is asked again; the requests of that answer are sent
+	// and every one of the Fields+Grow fields is compared with device memory.
+	Grow int `json:"grow,omitempty"`
+}
+
+// grown returns the i-th synthesised field of a growing builder.
+func grown(i int) modbus.Field {
+	return modbus.Field{Name: fmt.Sprintf("g%d", i), ServerAddress: "grow:502", UnitID: uint8(1 + i%3), Address: uint16((i * 7) % 60000), Type: modbus.FieldTypeUint16}
 }
 
 // addFluent adds f through the public fluent API; the resulting definition must be f itself.
@@ -99,8 +108,29 @@ func devSeed(base uint64, server string, unit uint8) uint64 {
 	return h.Sum64()
 }
 
-func build(fields []modbus.Field, fc uint8, f spec.Framing, fluent bool) ([]modbus.BuilderRequest, error) {
+func build(fields []modbus.Field, fc uint8, f spec.Framing, fluent bool, grow int) ([]modbus.BuilderRequest, error) {
 	b := modbus.NewRequestBuilder("", 0)
+	if grow > 0 {
+		n := len(fields) - grow
+		b.AddAll(append([]modbus.Field(nil), fields[:n]...))
+		for _, first := range []func() ([]modbus.BuilderRequest, error){b.ReadHoldingRegistersRTU, b.ReadHoldingRegistersTCP, b.ReadInputRegistersRTU, b.ReadInputRegistersTCP} {
+			_, _ = first()
+		}
+		for rest := fields[n:]; len(rest) > 0; {
+			k := min(len(rest), 4099)
+			b.AddAll(append([]modbus.Field(nil), rest[:k]...))
+			rest = rest[k:]
+		}
+		switch {
+		case fc == 3 && f == spec.TCP:
+			return b.ReadHoldingRegistersTCP()
+		case fc == 3:
+			return b.ReadHoldingRegistersRTU()
+		case f == spec.TCP:
+			return b.ReadInputRegistersTCP()
+		}
+		return b.ReadInputRegistersRTU()
+	}
 	if fluent && len(fields) > 0 {
 		// builder defaults = the first field's target; fields of that target rely on the defaults
 		b = modbus.NewRequestBuilder(fields[0].ServerAddress, fields[0].UnitID)
@@ -160,7 +190,7 @@ func exchange(c e2eCase, fields []modbus.Field) (map[string][]string, int, strin
 			fields[i] = canonical(fields[i])
 		}
 	}
-	reqs, err := build(fields, c.FC, c.Framing, c.Fluent)
+	reqs, err := build(fields, c.FC, c.Framing, c.Fluent, c.Grow)
 	if err != nil {
 		return nil, 0, "", fmt.Errorf("builder refused valid field definitions: %v", err)
 	}
@@ -325,6 +355,13 @@ func mustPDU(f spec.Framing, frame []byte) []byte {
 }
 
 func runE2E(c e2eCase) harness.Result {
+	if c.Grow > 0 {
+		c.Fluent, c.Truncate, c.Extra = false, 0, nil
+		c.Fields = append([]modbus.Field(nil), c.Fields...)
+		for i := 0; i < c.Grow; i++ {
+			c.Fields = append(c.Fields, grown(i))
+		}
+	}
 	base, nreq, info, err := exchange(c, c.Fields)
 	if err != nil {
 		return harness.Result{Err: err, NonTrivial: true}
@@ -348,7 +385,10 @@ func runE2E(c e2eCase) harness.Result {
 			}
 		}
 	}
-	if c.Truncate == 0 && len(c.Fields) > 1 {
+	if c.Grow > 0 {
+		labels = append(labels, fmt.Sprintf("builder-grown-by:%d", c.Grow))
+	}
+	if c.Truncate == 0 && len(c.Fields) > 1 && c.Grow == 0 {
 		// batching invariance 1: permutation
 		perm := append([]modbus.Field(nil), c.Fields...)
 		s := c.Perm
@@ -386,7 +426,7 @@ func runE2E(c e2eCase) harness.Result {
 	overlap := false
 	for i, f := range c.Fields {
 		groups[fmt.Sprintf("%s|%d", f.ServerAddress, f.UnitID)] = true
-		for _, g := range c.Fields[:i] {
+		for _, g := range c.Fields[:min(i, 400)] { // (a label only: the first 400 fields suffice)
 			if f.ServerAddress == g.ServerAddress && f.UnitID == g.UnitID && f.Type != modbus.FieldTypeCoil && g.Type != modbus.FieldTypeCoil &&
 				int(f.Address) < int(g.Address)+fgen.Size(g) && int(g.Address) < int(f.Address)+fgen.Size(f) {
 				overlap = true
@@ -533,4 +573,31 @@ func derefResp(resp packet.Response) packet.Response {
 		return *r
 	}
 	return nil
+}
+
+// TestGrownBuilder: builders that grow by 255..65537 fields between two builds (around the wraps of 8- and 16-bit counters).
+func TestGrownBuilder(t *testing.T) {
+	base := []modbus.Field{
+		{Name: "r0", ServerAddress: "a:502", UnitID: 1, Address: 10, Type: modbus.FieldTypeUint16},
+		{Name: "r1", ServerAddress: "a:502", UnitID: 1, Address: 300, Type: modbus.FieldTypeUint32},
+		{Name: "r2", ServerAddress: "b:502", UnitID: 2, Address: 7, Type: modbus.FieldTypeInt16},
+	}
+	grows := []int{255, 256, 65536}
+	if harness.Thorough() {
+		grows = []int{255, 256, 257, 4096, 65535, 65536, 65537, 131072}
+	}
+	idx := 0
+	for _, fc := range []uint8{3, 4} {
+		for _, fr := range []spec.Framing{spec.TCP, spec.RTU} {
+			for _, g := range grows {
+				idx++
+				if g > 60000 && !harness.Thorough() && !(fc == 3 && fr == spec.RTU) {
+					continue
+				}
+				if harness.Mine(idx) && !chkE2E.Eval(t, e2eCase{Fields: base[:1+idx%3], FC: fc, Framing: fr, Seed: uint64(idx) + harness.Seed(), Grow: g}) {
+					return
+				}
+			}
+		}
+	}
 }
